@@ -25,6 +25,9 @@ KIND = {"string": {"type": "string"}, "int": {"type": "integer"}, "float": {"typ
         "file": {"type": "string", "format": "binary"}, "list": {"type": "array", "items": {"type": "integer"}},
         "model": {"allOf": [{"$ref": "#/components/schemas/M"}]}, "uintstr": {"type": ["integer", "string"]},
         "udateint": {"oneOf": [{"type": "string", "format": "date"}, {"type": "integer"}]}}
+OTHER = {"string": ["zzz", "yyy"], "int": [7, 8], "float": [2.5, 3.5], "bool": [True, False], "date": ["2021-02-03", "2022-03-04"],
+         "datetime": ["2021-02-03T04:05:06+00:00", "2022-03-04T05:06:07+00:00"], "uuid": ["22345678-1234-5678-1234-567812345678", "32345678-1234-5678-1234-567812345678"],
+         "enums": ["a", "b"], "enumi": [1, 2]}
 PYTYPE = {"str": "str", "int": "int", "float": "float", "bool": "bool", "date": "date", "datetime": "datetime", "UUID": "UUID", "NoneType": "None"}
 
 
@@ -44,7 +47,12 @@ def build(cells, route: str, literal: bool, d, pkg: str):
     cases = []
     for i, (k, v) in enumerate(cells):
         cls = f"D{pkg.upper()}X{i}"
-        if route == "allof":
+        if route in ("allofover", "allofover2"):
+            # the base declares ANOTHER (valid) default - untyped, or with the same type; the later member's default is the declared one
+            other = next(x for x in OTHER[k] if json.dumps(x) != json.dumps(VAL[v]))
+            schemas[cls + "Base"] = {"type": "object", "properties": {"p": {"default": other} if route == "allofover" else dict(KIND[k], default=other)}}
+            schemas[cls] = {"allOf": [{"$ref": f"#/components/schemas/{cls}Base"}, {"type": "object", "properties": {"p": cell_schema(k, v, "direct")}}]}
+        elif route == "allof":
             schemas[cls + "Base"] = {"type": "object", "properties": {"p": KIND[k]}}
             schemas[cls] = {"allOf": [{"$ref": f"#/components/schemas/{cls}Base"}, {"type": "object", "properties": {"p": cell_schema(k, v, "direct")}}]}
         else:
@@ -175,7 +183,9 @@ def run(rep) -> None:
                  ("direct", True, [c for c in table if c[0] in ("lits", "liti")], "dl"),
                  ("ref", False, [c for c in table if c[0] in ("enums", "enumi", "string", "int", "date")], "rn"),
                  ("ref", True, [c for c in table if c[0] in ("lits", "liti")], "rl"),
-                 ("allof", False, [c for c in table if c[0] in ("enums", "enumi", "string", "int", "float", "bool", "date", "datetime", "uuid")], "an")]
+                 ("allof", False, [c for c in table if c[0] in ("enums", "enumi", "string", "int", "float", "bool", "date", "datetime", "uuid")], "an"),
+                 ("allofover", False, [c for c in table if c[0] in OTHER and table[c]["well"]], "ao"),
+                 ("allofover2", False, [c for c in table if c[0] in OTHER and table[c]["well"]], "ap")]
         for route, literal, cells, pkg in plans:
             cells = [c for c in cells if c[1] != "null"]
             doc, g, cases = build(cells, route, literal, d, pkg)
